@@ -341,8 +341,9 @@ def bounded(model):
             continue
         if rxn["type"] in ("hillpositive", "hillnegative"):
             continue
-        if rxn["type"] == "general" and not rm.expr_names(rxn["pd"]["rate"])["sp"]:
-            continue
+        if rxn["type"] == "general":
+            if not rm.expr_names(rxn["pd"]["rate"])["sp"] or rxn.get("rate_bounded"):
+                continue      # production at a rate bounded by a constant: at most linear growth
         return False
     return True
 
@@ -373,7 +374,7 @@ def expected_events(model, horizon, vol=None, steps=300, safe=False):
         cols.append(net)
     h = horizon / steps
     cum = 0.0
-    out = [(0.0, 0.0)]
+    out = [(0.0, 0.0, 0.0)]
     t = 0.0
     for i in range(steps):
         try:
@@ -399,7 +400,7 @@ def expected_events(model, horizon, vol=None, steps=300, safe=False):
                     st[sname] = max(0.0, st[sname] + c * aj * hh)
             cum += sum(a) * hh
             t += hh
-        out.append((t, cum))
+        out.append((t, cum, sum(a)))
         if cum > 1e9:
             break
     return out
@@ -408,9 +409,18 @@ def expected_events(model, horizon, vol=None, steps=300, safe=False):
 def cap_horizon(model, horizon, max_events=30000, vol=None):
     """Largest horizon <= the given one whose mean-field event estimate stays below max_events."""
     ev = expected_events(model, horizon, vol)
-    if ev[-1][1] <= max_events:
-        return horizon
-    for (t, c) in ev:
-        if c > max_events:
-            return max(t * 0.8, horizon * 1e-6)
+    lam0 = ev[1][2] if len(ev) > 1 else 0.0
+    lam_cap = max(30.0 * lam0, 3000.0)
+    # the estimate must have covered the whole horizon (it stops early on overflow / domain errors)
+    complete = ev[-1][0] >= horizon * (1 - 1e-9)
+    prev_t = 0.0
+    for rec in ev[1:]:
+        t, c, lam = rec
+        # stop before the event budget is exhausted or the total rate has taken off (finite-time blow-up is
+        # underestimated by the explicit Euler scheme, so stay well clear of it)
+        if c > max_events or lam > lam_cap:
+            return max(prev_t * 0.6, horizon * 1e-6)
+        prev_t = t
+    if not complete:
+        return max(prev_t * 0.6, horizon * 1e-6)
     return horizon
